@@ -458,6 +458,10 @@ pub fn record(args: &[String]) -> i32 {
             pre = w.project();
         }
         let mut live_ctx = xml_xpath::eval::model::Context::default();
+        if with_q && !with_c15 && !merged && h % 3 == 1 {
+            // the battery right after the prelude: the next structural edit would renumber everything
+            nq += queries(&w, &pre, &mut *out, &mut live_ctx);
+        }
         // every second history opens with a scripted prefix that a random writer meets too rarely: a node replaced by
         // its look-alike (same kind, same name / data, another node), then the random calls take over
         let script: Vec<J> = if !with_c15 && !merged && h % 2 == 0 {
